@@ -451,6 +451,9 @@ class Runner:
         self._kill_issued = False
         self._kill_skipped = False
         self._timer_cancelled_early = False
+        # Per-run stdin codec state (the encoding may differ between runs)
+        self._stdin_decoder = None
+        self._stdin_encoder = None
         self.start(command, self.opts["shell"], self.env)
         # If disowned, we just stop here - no threads, no timer, no error
         # checking, nada.
@@ -1051,8 +1054,15 @@ class Runner:
         .. versionadded:: 1.0
         """
         # Encode always, then request implementing subclass to perform the
-        # actual write to subprocess' stdin.
-        self._write_proc_stdin(data.encode(self.encoding))
+        # actual write to subprocess' stdin. Encode incrementally: the text
+        # arrives in pieces (often one character at a time), and codecs with
+        # a start-of-stream marker (utf-16, utf-8-sig, ...) must emit it once
+        # per stream, not once per piece.
+        encoder = getattr(self, "_stdin_encoder", None)
+        if encoder is None:
+            encoder = codecs.getincrementalencoder(self.encoding)()
+            self._stdin_encoder = encoder
+        self._write_proc_stdin(encoder.encode(data))
 
     def decode(self, data: bytes) -> str:
         """
